@@ -5,7 +5,7 @@ from fractions import Fraction
 import numpy as np
 
 from harness import gen
-from harness.framework import Suite
+from harness.framework import CaseTimeout, Suite
 
 PID = "C17"
 LEAN_MODS = ["SwcVerif.Props.C17", "SwcVerif.Props.C17Gen"]
@@ -28,7 +28,9 @@ TRUSTED = ["hand-written model Model/Mst.lean of the greedy loop: PROVED equal (
 ASSUMPTIONS = ["prim_minimal assumes a symmetric, non-negative matrix: |p_i - p_j| computed by np.linalg.norm is both (IEEE negation is exact)",
                "rounding of the distance matrix in the dtype of the input cloud (float64 or float32) and of `dis + bf*acc`: clouds whose best and second-best cost are "
                "relatively closer than max(1e-9, 64 eps(dtype)) are rejected; the MST weight is compared relatively, max(1e-7, 64 eps(dtype)), at every length scale",
-               "numpy masked-array argmin = first minimum in row-major order over the unmasked cells"]
+               "numpy masked-array argmin = first minimum in row-major order over the unmasked cells",
+               "integer clouds are generated as SIGNED voxel indices (int16 / int32 / int64) whose coordinate differences fit the type; the code subtracts in the "
+               "type of the (soma + cloud) array, so unsigned or narrow integer clouds without a float soma wrap around (not generated; reported separately)"]
 
 
 def cloud(rng, n, dim=3):
@@ -101,6 +103,35 @@ def near_pair_cloud(rng, n, mag, dtype, with_root):
         u = float(np.spacing(np.float32(abs(pts[b][i])))) if pts[b][i] != 0 else 1e-6
         pts[a][i] = float(np.dtype(dtype).type(pts[b][i] + rng.choice([-1, 1]) * max(2, round(steps * rng.uniform(0.5, 1.0))) * u))
     return (pts, steps) if distinct_f32(pts) else None
+
+
+SOMA_FORMS = ("list", "tuple", "float64", "float32")
+INT_DTYPES = ("int64", "int32", "int16")
+
+
+def voxel_cloud(rng, n):
+    """n distinct voxel indices of a cubic volume (what np.argwhere of a mask / skeleton gives): non-negative integers"""
+    edge = rng.choice([8, 32, 128, 512])
+    pts = set()
+    while len(pts) < n:
+        pts.add(tuple(rng.randrange(edge) for _ in range(3)))
+    pts = [list(map(float, p)) for p in pts]
+    rng.shuffle(pts)
+    return pts, edge
+
+
+def soma_for(rng, pts, kind, box):
+    """a soma position for the cloud, exact in float32 (so exact in every form it is handed over in): `centroid` = the mean of the cloud moved by
+    up to a unit per axis, `voxel-centre` = the centre of a grid cell (… .5), `free` = anywhere in the bounding cube, `integral` = a grid node"""
+    if kind == "centroid":
+        s = [sum(p[i] for p in pts) / len(pts) + rng.uniform(-1, 1) for i in range(3)]
+    elif kind == "voxel-centre":
+        s = [math.floor(rng.uniform(*box)) + 0.5 for _ in range(3)]
+    elif kind == "integral":
+        s = [float(math.floor(rng.uniform(*box))) for _ in range(3)]
+    else:
+        s = [rng.uniform(*box) for _ in range(3)]
+    return [float(np.float32(c)) for c in s]
 
 
 def reference(points, bf, k, exclude_root, tol=1e-9):
@@ -271,25 +302,77 @@ class MstSuite(Suite):
                 o["soma"] = True
             out.append({"class": f"near-pair/{'soma~point' if with_root else 'point~point'}/{dt}/off{mag:g}/steps{'<=20' if steps <= 20 else '<=200' if steps <= 200 else '>200'}",
                         "points": pts, "dtype": dt, **o})
+        # the array type of the cloud × the form of the soma: clouds of integer type (voxel indices) and of either float type, the soma not given
+        # or given as a list / tuple of Python floats or as an array of either float type — a position of its own (the centroid of the cloud, the
+        # centre of a voxel, any point of the bounding cube: values off the grid of an integer cloud), which has to be the root as given.
+        # Every cloud type × soma form has a case; every integer type × form one with a soma off the grid; half of them with the MST clause
+        for cdt in INT_DTYPES + ("float32", "float64"):
+            integer = cdt in INT_DTYPES
+            control = rng.choice(SOMA_FORMS)
+            for form in ("none",) + SOMA_FORMS + ((control,) if integer else ()) + (SOMA_FORMS if big else ()):
+                n = rng.choice([4, 6, 9, 14, 22, 30])
+                if integer:
+                    pts, edge = voxel_cloud(rng, n)
+                    box = (0, edge)
+                else:
+                    side = rng.uniform(10, 100)
+                    pts, box = placed_cloud(rng, n, side, [0.0, 0.0, 0.0], 1.0, cdt), (-side / 2, side / 2)
+                    if pts is None:
+                        continue
+                kind = "-"
+                if form != "none":
+                    kind = rng.choice(["centroid", "voxel-centre", "free"] if integer else ["centroid", "free"])
+                    if integer and form == control:
+                        kind, control = "integral", None       # one control per integer type: a soma on the grid
+                    pts = [soma_for(rng, pts, kind, box)] + pts
+                    if not distinct_f32(pts):
+                        continue
+                o = options(rng.random() < 0.5)
+                o["soma"] = form != "none"
+                out.append({"class": f"types/{cdt}/soma-{form}/{kind}/bf{o['bf']}/k{o['k']}", "points": pts, "cloud_dtype": cdt,
+                            **({"soma_as": form} if form != "none" else {}), **o})
         return out
 
-    def run(self, case):
+    @staticmethod
+    def inputs(case):
+        """(cloud array, soma or None) as they are handed to the transform. `points` lists the soma (if given) first, then the cloud; every value
+        is exact in the array type it is put into. `cloud_dtype` (default: `dtype`, default float64) is the type of the cloud array, `soma_as` the
+        form of the soma: `same` (a row of the cloud's type, the default), `list` / `tuple` of Python floats, or an ndarray of the named dtype"""
+        dt = np.dtype(case.get("cloud_dtype", case.get("dtype", "float64")))
+        rows = case["points"]
+        if not (case["soma"] and len(rows) > 1):
+            return np.array(rows, dtype=dt), None
+        form = case.get("soma_as", "same")
+        s = [float(c) for c in rows[0]]
+        soma = np.array(s, dtype=dt) if form == "same" else s if form == "list" else tuple(s) if form == "tuple" else np.array(s, dtype=np.dtype(form))
+        return np.array(rows[1:], dtype=dt), soma
+
+    @staticmethod
+    def dtypes(case):
+        """(the float type the distance matrix of the joined soma + cloud array has under numpy's promotion rules, the float type the tolerances
+        are taken from: the coarser of it and the cloud's own). Integer arrays are measured in float64"""
+        pts, soma = MstSuite.inputs(case)
+        joined = pts.dtype if soma is None else np.result_type(pts.dtype, np.asarray(soma).dtype)
+        calc = joined if np.issubdtype(joined, np.floating) else np.dtype("float64")
+        tol = pts.dtype if np.issubdtype(pts.dtype, np.floating) and np.finfo(pts.dtype).eps > np.finfo(calc).eps else calc
+        return calc.name, tol.name
+
+    @staticmethod
+    def transform(case):
         from swcgeom.transforms import PointsToCuntzMST, PointsToMST
 
-        dt = np.dtype(case.get("dtype", "float64"))       # the points are exactly representable in it
-        pts = np.array(case["points"], dtype=dt)
-        soma = None
-        if case["soma"]:
-            soma = pts[0]; pts = pts[1:]                   # the soma has the dtype of the cloud
-            if len(pts) == 0:
-                soma = None; pts = np.array(case["points"], dtype=dt)
         if case["api"] == "mst" and case["bf"] == 0:
-            tr = PointsToMST(case["k"], exclude_soma=case["exclude_soma"], sort=case["sort"])
-        else:
-            tr = PointsToCuntzMST(bf=case["bf"], furcations=case["k"], exclude_soma=case["exclude_soma"], sort=case["sort"])
-        t = tr(pts, soma)
+            return PointsToMST(case["k"], exclude_soma=case["exclude_soma"], sort=case["sort"])
+        return PointsToCuntzMST(bf=case["bf"], furcations=case["k"], exclude_soma=case["exclude_soma"], sort=case["sort"])
+
+    @staticmethod
+    def table(t):
         return {"pid": t.pid().tolist(), "id": t.id().tolist(), "xyz": t.xyz().astype(float).tolist(), "type": t.type().tolist(),
                 "length": float(t.length())}
+
+    def run(self, case):
+        pts, soma = self.inputs(case)
+        return self.table(self.transform(case)(pts, soma))
 
     @staticmethod
     def _malformed(case, res):
@@ -325,11 +408,11 @@ class MstSuite(Suite):
         if case.get("large"):
             return []      # the oracle's clauses only: the quadratic reference and the rational model are for the smaller clouds
         pid, _ = self._orig_pids(case, res)
-        dt = case.get("dtype", "float64")
+        calc, dt = self.dtypes(case)
         ref, amb = reference(case["points"], case["bf"], case["k"], case["exclude_soma"], rtol_of(dt, 1e-9))
         if pid is None or amb:
             return []
-        P = np.array(case["points"], dtype=dt)             # the matrix in the precision of the cloud handed over
+        P = np.array(case["points"], dtype=calc)           # the matrix in the precision of the (soma + cloud) array handed over
         d = np.linalg.norm(P.reshape((-1, 1, 3)) - P.reshape((1, -1, 3)), axis=2)
         rows = ";".join(",".join(str(Fraction(float(v))) for v in row) for row in d)
         args = f"bf={Fraction(case['bf'])} k={case['k']} ex={int(case['exclude_soma'])} d={rows}"
@@ -353,7 +436,14 @@ class MstSuite(Suite):
         out = []
         pid, old = self._orig_pids(case, res)
         if pid is None:
-            return [("mst-points", f"result nodes are not the input points exactly once each ({len(res['xyz'])} nodes for {n} points)")]
+            lost = [i for i in range(n) if i not in old]
+            alien = [j for j, o in enumerate(old) if o is None]
+            twice = sorted({o for o in old if o is not None and old.count(o) > 1})
+            return [("mst-points", f"result nodes are not the input points exactly once each ({len(res['xyz'])} nodes for {n} points): "
+                                   + "; ".join(([f"input point {lost[0]}{' (the soma)' if lost[0] == 0 and case.get('soma') else ''} {pts[lost[0]]} has no node"
+                                                 f" ({len(lost)} such)"] if lost else [])
+                                               + ([f"node {alien[0]} at {res['xyz'][alien[0]]} is no input point ({len(alien)} such)"] if alien else [])
+                                               + ([f"input point {twice[0]} has several nodes"] if twice else [])))]
         if gen.well_formed(res["id"], res["pid"]) is not None and case["sort"]:
             out.append(("mst-not-a-tree", gen.well_formed(res["id"], res["pid"])))
         roots = [i for i in range(n) if pid[i] == -1]
@@ -374,7 +464,7 @@ class MstSuite(Suite):
             bad = [i for i in range(n) if cnt[i] > case["k"] and not (case["exclude_soma"] and i == 0)]
             if bad:
                 out.append(("mst-branching-limit", f"points {bad} have {[cnt[i] for i in bad]} children, limit {case['k']}"))
-        dt = case.get("dtype", "float64")
+        dt = self.dtypes(case)[1]
         ref, amb = (None, True) if case.get("large") else reference(pts, case["bf"], case["k"], case["exclude_soma"], rtol_of(dt, 1e-9))
         if not amb and pid != ref:
             diff = [i for i in range(n) if pid[i] != ref[i]]
@@ -392,6 +482,104 @@ class MstSuite(Suite):
 
     def nontrivial(self, case, res):
         return len(case["points"]) >= 4
+
+
+class ReuseSuite(Suite):
+    """ONE transform object applied to several clouds in a row (the way a transform is used in a pipeline / over a batch): every call is an
+    instance of the property on its own — the tree of a call depends on that call's cloud and the options the object was made with, not on
+    what the object was applied to before. Sizes: tiny clouds (2–3 points) before larger ones, larger before tiny, equal sizes, any order;
+    with and without a soma from call to call. Each call is judged by the clauses of `MstSuite` and compared with the model."""
+    name = "c17.reuse"
+    case_timeout = 60
+    repeat = 6
+
+    def cases(self, rng, tier, widen):
+        out = []
+        big = tier == "thorough" or widen
+        orders = ("tiny-first", "tiny-first", "ascending", "descending", "same-size", "any")
+        for i in range((3 if not big else 8) * len(orders)):
+            order = orders[i % len(orders)]
+            m = rng.randint(2, 4)
+            pool = [4, 6, 9, 14, 22, 30, 30, 40] + ([rng.randint(60, 150)] if i % 5 == 0 else [])
+            if order == "same-size":
+                sizes = [rng.choice([2, 3, 4, 6, 9, 14, 22])] * m
+            else:
+                sizes = [rng.choice(pool) for _ in range(m)]
+                if order in ("tiny-first", "any"):
+                    sizes = [rng.choice([2, 3])] * rng.choice([1, 1, 2]) + sizes
+                if order == "ascending":
+                    sizes.sort()
+                elif order == "descending":
+                    sizes.sort(reverse=True)
+                elif order == "any":
+                    rng.shuffle(sizes)
+            plain = i % 2 == 0              # the MST clause: no balancing factor, no limit
+            bf = 0.0 if plain else rng.choice([0.0, 0.25, 0.5, 1.0, 0.75])
+            k = -1 if plain else rng.choice([-1, -1, 1, 2, 3])
+            dt = rng.choice(["float64", "float64", "float32"])
+            clouds, somas = [], []
+            for n in sizes:
+                pts = None
+                while pts is None:
+                    pts = cloud(rng, n) if rng.random() < 0.25 else placed_cloud(rng, n, rng.uniform(10, 100), [0.0, 0.0, 0.0], 1.0, dt)
+                clouds.append(pts)
+                somas.append(rng.random() < 0.3)
+            out.append({"class": f"reuse/{order}/calls{len(sizes)}/bf{bf}/k{k}", "clouds": clouds, "somas": somas, "dtype": dt, "bf": bf, "k": k,
+                        "exclude_soma": rng.random() < 0.6, "sort": rng.random() < 0.5, "api": "mst" if bf == 0 and rng.random() < 0.5 else "cuntz"})
+        return out
+
+    @staticmethod
+    def calls(case):
+        """the single-call cases of the sequence"""
+        return [{"points": pts, "soma": bool(sm), "dtype": case.get("dtype", "float64"), **{f: case[f] for f in ("bf", "k", "exclude_soma", "sort", "api")},
+                 **({"large": True} if len(pts) > 40 else {})} for pts, sm in zip(case["clouds"], case["somas"])]
+
+    def run(self, case):
+        tr = MstSuite.transform(case)          # one object for the whole sequence
+        res = []
+        for sub in self.calls(case):
+            pts, soma = MstSuite.inputs(sub)
+            try:
+                res.append(MstSuite.table(tr(pts, soma)))
+            except CaseTimeout:
+                raise
+            except Exception as e:  # noqa: BLE001 - a call that raises is that call's finding; the later calls are still made
+                res.append({"exc": type(e).__name__, "msg": str(e)[:300]})
+        return {"calls": res}
+
+    def _pairs(self, case, res):
+        subs = self.calls(case)
+        rs = res.get("calls") if isinstance(res, dict) else None
+        if not isinstance(rs, list) or len(rs) != len(subs):
+            return None
+        return list(zip(subs, rs))
+
+    def oracle(self, case, res):
+        if isinstance(res, dict) and "exc" in res:
+            return [("mst-raises", f"{res['exc']}: {res.get('msg')}")]
+        try:
+            pairs = self._pairs(case, res)
+        except Exception:  # noqa: BLE001
+            pairs = None
+        if pairs is None:
+            return [("mst-malformed-output", f"no result per call: {str(res)[:200]}")]
+        sizes = [len(sub["points"]) for sub, _ in pairs]
+        out = []
+        for i, (sub, r) in enumerate(pairs):
+            for key, msg in MST.oracle(sub, r):
+                out.append((key, f"call {i + 1} of {len(pairs)} of one transform object (clouds of {sizes} points incl. soma, in this order): {msg}"))
+        return out[:3]
+
+    def lines(self, case, res):
+        pairs = None if not isinstance(res, dict) or "exc" in res else self._pairs(case, res)
+        out = []
+        for sub, r in pairs or []:
+            if len(sub["points"]) <= 22:
+                out += MST.lines(sub, r)
+        return out
+
+    def nontrivial(self, case, res):
+        return len(case["clouds"]) >= 2 and max(len(c) for c in case["clouds"]) >= 4
 
 
 class GenLoopSuite(Suite):
@@ -432,7 +620,8 @@ class GenLoopSuite(Suite):
         return len(case["points"]) >= 3
 
 
-SUITES = [MstSuite(), GenLoopSuite()]
+MST = MstSuite()
+SUITES = [MST, ReuseSuite(), GenLoopSuite()]
 TECHNIQUE = ("Lean 4 theorems about the model of the greedy loop (mask invariant: open cells are exactly connected-unsaturated source × unconnected target; each "
              "iteration connects one new point to an earlier one with the least edge + bf·path cost; child counts never exceed the limit; n-1 iterations give a "
              "spanning tree rooted at 0; for bf = 0 and no limit the exchange argument carried through the whole loop: the returned tree is no longer than any connected spanning edge list, and is itself one) + differential correspondence on the code's own distance matrix + independent re-simulation of the stated rule and a "
